@@ -104,3 +104,18 @@ pub fn copy_prefix(block: &mut Vec<u8>, src: &[u8])
     let n = src.len();
     block[..n].copy_from_slice(src)
 }
+impl DiskIO {
+    // self.journal_generation.load(..) / self.journal_slot.load(..)   (rule R-atom; unit journal_pos)
+    #[verifier::external_body]
+    pub fn journal_generation_load(&self) -> (g: u64)
+        ensures g == self.position().0,
+    {
+        unimplemented!()
+    }
+    #[verifier::external_body]
+    pub fn journal_slot_load(&self) -> (s: usize)
+        ensures s == self.position().1,
+    {
+        unimplemented!()
+    }
+}
